@@ -28,7 +28,7 @@ func notifyReplay(args []string) int {
 	dir := fs.String("dir", "", "scratch directory for the servers' data")
 	tick := fs.Duration("tick", 12*time.Second, "real duration of one model tick")
 	stepWait := fs.Duration("step-wait", 20*time.Second, "patience for a scripted attempt")
-	settle := fs.Duration("settle", 30*time.Second, "patience for the outstanding messages after recovery")
+	settle := fs.Duration("settle", 20*time.Second, "patience for the outstanding messages after recovery")
 	maxStall := fs.Duration("max-stall", 1500*time.Millisecond, "scenarios during which the process stalled longer are not judged")
 	corrupt := fs.Bool("corrupt", false, "self-test: drop one observed message per behaviour before comparing")
 	keep := fs.Int("examples", 4, "mismatch examples kept per class")
